@@ -20,6 +20,7 @@ RULE = ("for each entity class with a documented-shape stanza: 1-3 fields varied
         "the real codec and by the Lean codec model.  stream 'incoming-message': a <message> stanza of each of the 12 content kinds with a generated payload "
         "(C10's generator) and envelope (user / group+participant, notify, offline) through the REAL messages / media protocol layer; the entity handed to the "
         "application is serialised again and compared attribute by attribute and payload field by field (presence-aware).  distinct = distinct (class, set of varied fields, kinds of values).")
+RULE += (' Textual element content is varied over UTF-8 text (accents, Arabic-Indic digits, CJK, emoji).')
 ASSUMPTIONS = ["the documented shape of a class is its fixture stanza (repository test module or docstring) with attribute values varied within their kind; "
                "attributes that select the class (type, xmlns, class, mediatype, child tags) are not varied"]
 
@@ -128,6 +129,10 @@ def gen_value(r, kind, old):
     if kind == "freetext":
         # (free text may be empty: an empty push name, an empty status — present and empty is not absent)
         return r.choice(["", "x", "hello world", "caf\xe9 \xfcber", "a" * r.randint(2, 80)])
+    if kind == "utf8data":
+        # element content that is text: what a peer writes there is UTF-8, not only ASCII (names, statuses, address-book entries as typed)
+        return r.choice([u"x", u"hello", u"A-%d" % r.randint(0, 999), u"+49 151 %d" % r.randint(0, 99999), u"caf\u00e9 \u00fcber", u"\u0664\u0669\u0661\u0665\u0661",
+                         u"\u4e16\u754c", u"\U0001F600 ok", u"na\u00efve-%d" % r.randint(0, 99)]).encode("utf-8")
     if kind == "bytes":
         n = len(old) if isinstance(old, (bytes, bytearray)) and len(old) else r.randint(1, 24)       # binary fields keep their documented size
         return bytes(bytearray(r.randrange(256) for _ in range(n)))
@@ -158,7 +163,7 @@ def cases(chk):
                 yield "variant", {"cls": name, "muts": [["set"] + f[1:] + [gen_value(r, kind_of(old, f[2]), old)]]}
             elif f[0] == "data":
                 old = at(base, f[1]).getData()
-                v = gen_value(r, "bytes" if isinstance(old, bytes) and not _texty(old) else "text", old)
+                v = gen_value(r, "bytes" if isinstance(old, bytes) and not _texty(old) else "utf8data", old)
                 yield "variant", {"cls": name, "muts": [["data", f[1], v.hex() if isinstance(v, bytes) else v.encode("latin-1").hex()]]}
             else:
                 for n in (0, 1, 3):
@@ -173,7 +178,7 @@ def cases(chk):
                     muts.append(["del"] + f[1:] if r.random() < 0.25 else ["set"] + f[1:] + [gen_value(r, kind_of(old, f[2]), old)])
                 elif f[0] == "data":
                     old = at(base, f[1]).getData()
-                    v = gen_value(r, "bytes" if isinstance(old, bytes) and not _texty(old) else "text", old)
+                    v = gen_value(r, "bytes" if isinstance(old, bytes) and not _texty(old) else "utf8data", old)
                     muts.append(["data", f[1], v.hex() if isinstance(v, bytes) else v.encode("latin-1").hex()])
                 else:
                     muts.append(["rep", f[1], f[2], r.choice([0, 1, 2, 3, 5])])
